@@ -73,6 +73,18 @@ def cases(rng, tier):
         ty, size = rng.choice(PC_TYPES)
         p.push_constant = (p.push_constant[0], ty)
         out.append({"wgsl": EXTRA + p.render(), "family": "pc_without_bindings", "opts": {}, "truth": (size, sorted(p.truth().get("pc", set())))})
+    # the push constant is first used by an entry point declared after entry points of all three stages
+    for k in range(8):
+        p = W.late_pc_user_program(rng)
+        ty, size = rng.choice(PC_TYPES)
+        p.push_constant = (p.push_constant[0], ty)
+        out.append({"wgsl": EXTRA + p.render(), "family": "late_user_after_all_stages", "opts": {}, "truth": (size, sorted(p.truth().get("pc", set())))})
+    # one include path regenerated with other contents (with / without a push constant, another size), consecutively: the
+    # range is that of the source given with THIS call
+    for ty, size in (("vec4<f32>", 16), (None, 0), ("mat4x4<f32>", 64), (None, 0), ("f32", 4), ("vec4<f32>", 16)):
+        w = ("var<push_constant> pc: %s;\n@fragment fn fs() -> @location(0) vec4<f32> { _ = pc; return vec4<f32>(0.0); }\n" % ty) if ty else \
+            "@fragment fn fs() -> @location(0) vec4<f32> { return vec4<f32>(0.0); }\n"
+        out.append({"wgsl": w, "family": "same_include_path", "opts": {}, "include": "shaders/pass.wgsl", "truth": (size, ["fragment"]) if ty else None})
     # a module without any entry point (an include-style file): the range is still there, for no stage
     for ty, size in rng.sample(PC_TYPES, 6):
         out.append({"wgsl": EXTRA + "var<push_constant> pc: %s;\nfn helper() -> f32 { return 1.0; }\n" % ty,
